@@ -280,6 +280,6 @@ pub fn def() -> PropDef {
         level: "exploration",
         rule: "one case = a seeded sequence of 2..12 operations over {bind tcp 127.0.0.1:0 / [::1]:0 / localhost:0 / fixed port / ipc path / unresolvable host, duplicate binds arising from the fixed ports and paths, unbind(bound), unbind(never bound), connect-in with handshake, exchange a message on an established connection} against a reference model of the bind set, checked after every operation in the simulated network and file namespaces; socket kind walks PULL, DEALER, ROUTER, REP, SUB, XPUB; non-trivial = at least one unbind or failed bind judged; distinct = distinct (plan, schedule, transport)",
         assumptions: &["endpoints are those of the simulator's TCP/IPC namespaces, reached through the real bind/unbind/accept code", "'localhost' resolves to 127.0.0.1 in the simulated resolver"],
-        strata: vec![Stratum { name: "bookkeeping", quick: 150_000, thorough: 2_000_000, exhaustive: (false, false), run: bookkeeping, what: "operation sequences vs the bind-set model" }],
+        strata: vec![Stratum { name: "bookkeeping", quick: 150_000, thorough: (2_000_000) * 8, exhaustive: (false, false), run: bookkeeping, what: "operation sequences vs the bind-set model" }],
     }
 }
